@@ -1,0 +1,28 @@
+//go:build verif
+
+// Contracts for the deductive verifier under /verif (foxvc): Logger (C20),
+// Recovery (C15) and middleware chains (C13). Comments only.
+
+package fox
+
+//@ package fox
+
+//@ -- ---------------------------------------------------------------- C20: Logger
+
+//@ -- status and level seen by the logger once the wrapped handler has returned
+//@ fun seenStatus(c Context, epoch int) int = wStatus(ctxWriter(c, epoch), epoch)
+//@ fun seenLocation(c Context, epoch int) string = hdrGet(wHeader(ctxWriter(c, epoch), epoch), "Location")
+
+//@ func LoggerWithHandler$1$1 props C20
+//@   requires c != nil && next != nil && log != nil
+//@   modifies heap, hCalls, wFinal, wFirst, wInfo, wBody, wFlush, wHijack, logN[log], logAt[log], logLvl[log], logMsg[log], logAttrs[log]
+//@   ensures once: hCalls == old(hCalls) + 1
+//@   ensures one-record: logN[log] == old(logN[log]) + 1
+//@   ensures after-handler: logAt[log] == hCalls
+//@   ensures level: logLvl[log] == level(seenStatus(c, hCalls))
+//@   ensures msg-ip: ctxIPErr(c, hCalls) == nil ==> logMsg[log] == ipString(ctxIP(c, hCalls))
+//@   ensures msg-remote: ctxIPErr(c, hCalls) != nil && errIs(ctxIPErr(c, hCalls), ErrNoClientIPResolver) ==> logMsg[log] == ipString(ctxRemoteIP(c, hCalls))
+//@   ensures msg-unknown: ctxIPErr(c, hCalls) != nil && !errIs(ctxIPErr(c, hCalls), ErrNoClientIPResolver) ==> logMsg[log] == "unknown"
+//@   ensures attrs: len(logAttrs[log]) >= 5 && logAttrs[log][0] == attrInt("status", seenStatus(c, hCalls)) && logAttrs[log][1] == attrStr("method", ctxMethod(c, hCalls)) && logAttrs[log][2] == attrStr("host", ctxHost(c, hCalls)) && logAttrs[log][3] == attrStr("path", ctxPath(c, hCalls))
+//@   ensures location: level(seenStatus(c, hCalls)) == -4 && len(seenLocation(c, hCalls)) > 0 ==> len(logAttrs[log]) == 6 && logAttrs[log][5] == attrStr("location", seenLocation(c, hCalls))
+//@   ensures no-location: !(level(seenStatus(c, hCalls)) == -4 && len(seenLocation(c, hCalls)) > 0) ==> len(logAttrs[log]) == 5
